@@ -16,6 +16,7 @@ import (
 	"github.com/netflix/rend/verifshim/vcrand"
 	"github.com/netflix/rend/verifshim/vnet"
 	"github.com/netflix/rend/verifshim/vrand"
+	"github.com/netflix/rend/verifshim/vsync"
 	"github.com/netflix/rend/verifshim/vyield"
 
 	"verif/fakemc"
@@ -61,6 +62,10 @@ type PoolScenario struct {
 	// seconds pass) is an event, at most Monitor times per execution. With small batches that are
 	// always full the monitor adds pooled connections while callers are being served.
 	Monitor int `json:"monitor,omitempty"`
+	// ColdStart > 0: the pool does not exist when the callers arrive and the backend refuses the
+	// first ColdStart dials: every caller obtains its handler itself (as every client connection of
+	// memproxy does) while the pool's first connection is still being established.
+	ColdStart int `json:"coldStart,omitempty"`
 	// AltCap > 0: at every decision only the default and its AltCap nearest alternatives are explored.
 	AltCap int `json:"altCap,omitempty"`
 }
@@ -236,9 +241,21 @@ func RunPool(sc PoolScenario, prefix []int) *PoolResult {
 	if sc.Monitor > 0 {
 		opts.EvaluationIntervalSec, opts.LoadFactorExpandRatio, opts.OverloadedConnRatio = 5, 0, 0 // 0: rend's defaults
 	}
-	h0 := batched.NewHandler(sock, opts)
-	for batched.VerifPoolSize(sock) < sc.PoolSize {
-		batched.VerifAddConn(sock)
+	var h0 batched.Handler
+	if sc.ColdStart > 0 {
+		refuse = sc.ColdStart
+		// rend holds a process-wide lock while the first connection of a pool is established; other
+		// callers wait for it. A goroutine waiting for a real mutex is not "durably blocked", the
+		// bubble would never become quiescent: waits for held locks become waits on channels.
+		batched.VerifFreshRelayTable()
+		dl := &durableLocks{st: map[interface{}]*dlState{}}
+		vsync.H = dl
+		defer func() { vsync.H = nil }()
+	} else {
+		h0 = batched.NewHandler(sock, opts)
+		for batched.VerifPoolSize(sock) < sc.PoolSize {
+			batched.VerifAddConn(sock)
+		}
 	}
 	defer batched.VerifForget(sock)
 
@@ -252,10 +269,13 @@ func RunPool(sc PoolScenario, prefix []int) *PoolResult {
 	start := func(i int, op wire.Op) {
 		started[i] = true
 		h := h0
-		if i > 0 {
+		if i > 0 && sc.ColdStart == 0 {
 			h = batched.NewHandler(sock, opts)
 		}
 		go func() {
+			if sc.ColdStart > 0 {
+				h = batched.NewHandler(sock, opts) // (waits for the pool's first connection)
+			}
 			r := CallHandlerDeferred(h, op)
 			mu.Lock()
 			res.Results[i] = r
@@ -376,7 +396,7 @@ func RunPool(sc PoolScenario, prefix []int) *PoolResult {
 				time.Sleep(10 * time.Second)
 				res.ElapsedSec += 11
 			}
-			if sc.MaxCuts > 0 {
+			if sc.MaxCuts > 0 || sc.ColdStart > 0 {
 				time.Sleep(1100 * time.Millisecond)
 				res.ElapsedSec += 2
 			}
@@ -448,3 +468,64 @@ func RunPool(sc PoolScenario, prefix []int) *PoolResult {
 	}
 	return res
 }
+
+// durableLocks makes "wait for a lock that is held" a wait on a channel (which a synctest bubble
+// counts as durably blocked) by granting every lock of rend in a model first; the real lock is then
+// always free when it is taken. Pools are left alone.
+type durableLocks struct {
+	mu sync.Mutex
+	st map[interface{}]*dlState
+}
+
+type dlState struct {
+	writer  bool
+	readers int
+	wake    chan struct{}
+}
+
+func (d *durableLocks) Acquire(m interface{}, write bool) {
+	for {
+		d.mu.Lock()
+		s := d.st[m]
+		if s == nil {
+			s = &dlState{}
+			d.st[m] = s
+		}
+		if !s.writer && (!write || s.readers == 0) {
+			if write {
+				s.writer = true
+			} else {
+				s.readers++
+			}
+			d.mu.Unlock()
+			return
+		}
+		if s.wake == nil {
+			s.wake = make(chan struct{})
+		}
+		w := s.wake
+		d.mu.Unlock()
+		<-w
+	}
+}
+
+func (d *durableLocks) Acquired(m interface{}, write bool) {}
+
+func (d *durableLocks) Release(m interface{}, write bool) {
+	d.mu.Lock()
+	if s := d.st[m]; s != nil {
+		if write {
+			s.writer = false
+		} else if s.readers > 0 {
+			s.readers--
+		}
+		if s.wake != nil {
+			close(s.wake)
+			s.wake = nil
+		}
+	}
+	d.mu.Unlock()
+}
+
+func (d *durableLocks) PoolGet(p *vsync.Pool) (interface{}, bool) { return nil, false }
+func (d *durableLocks) PoolPut(p *vsync.Pool, x interface{}) bool { return false }
